@@ -570,6 +570,68 @@ def emit_catalogue(cat):
     return '\n'.join(L)
 
 
+# ---------------------------------------------------------------- fingerprints of the modelled functions
+
+class _Normalise(ast.NodeTransformer):
+    """alpha-rename locals and parameters, drop docstrings and annotations: the fingerprint of a
+    function changes exactly when its code changes up to renaming and comments"""
+    def __init__(self):
+        self.names = {}
+
+    def _n(self, name):
+        return self.names.setdefault(name, 'v%d' % len(self.names))
+
+    def visit_FunctionDef(self, node):
+        node.returns = None
+        node.decorator_list = [self.visit(d) for d in node.decorator_list]
+        for a in node.args.args + node.args.kwonlyargs + ([node.args.vararg] if node.args.vararg else []) + ([node.args.kwarg] if node.args.kwarg else []):
+            a.annotation = None
+            a.arg = self._n(a.arg)
+        node.args.defaults = [self.visit(d) for d in node.args.defaults]
+        body = node.body
+        if body and isinstance(body[0], ast.Expr) and isinstance(body[0].value, ast.Constant) and isinstance(body[0].value.value, str):
+            body = body[1:] or [ast.Pass()]
+        node.body = [self.visit(b) for b in body]
+        return node
+
+    def visit_Name(self, node):
+        if isinstance(node.ctx, ast.Store) or node.id in self.names:
+            node.id = self._n(node.id)
+        return node
+
+    def visit_AnnAssign(self, node):
+        node.annotation = ast.Constant(value=None)
+        return self.generic_visit(node)
+
+
+def fingerprints():
+    import copy
+    import hashlib
+    out = {}
+    for mod in ('encode', 'decode', 'base', 'frame', 'header', 'body', 'heartbeat', 'common'):
+        try:
+            tree = ast.parse(src(mod + '.py'))
+        except Exception:  # noqa
+            out[mod] = 'unparsable'
+            continue
+
+        def walk(stmts, prefix):
+            for st in stmts:
+                if isinstance(st, (ast.FunctionDef, ast.AsyncFunctionDef)):
+                    # first pass collects stored names so that loads of locals are renamed too
+                    n = _Normalise()
+                    for sub in ast.walk(st):
+                        if isinstance(sub, ast.Name) and isinstance(sub.ctx, ast.Store):
+                            n._n(sub.id)
+                    norm = n.visit(copy.deepcopy(st))
+                    norm.name = 'f'
+                    out[prefix + st.name] = hashlib.sha1(ast.dump(norm, annotate_fields=False).encode()).hexdigest()[:16]
+                elif isinstance(st, ast.ClassDef):
+                    walk(st.body, prefix + st.name + '.')
+        walk(tree.body, mod + '.')
+    return out
+
+
 # ---------------------------------------------------------------- driver
 
 def write_if_changed(path, content):
@@ -591,6 +653,7 @@ def main():
     data = {}
     cat = extract_catalogue()
     data['catalogue'] = cat
+    data['fingerprints'] = fingerprints()
     changed = []
     if write_if_changed(os.path.join(OUT, 'Catalogue.lean'), emit_catalogue(cat)):
         changed.append('Catalogue.lean')
